@@ -20,11 +20,13 @@ type Opts struct {
 	Excluded map[string]int
 	NoNulls  bool // never draw null at nullable positions
 	// NoNullObjects: known-finding exclusion nulls.nullable_object_with_properties.
-	NoNullObjects  func() bool
-	AllProps       bool // include every optional property
-	NoProps        bool // omit every optional property
-	MaxArr         int
-	PreferBoundary bool
+	NoNullObjects func() bool
+	// SmallAddlNumbers: known-finding exclusion addprops.int_beyond_2pow53.
+	SmallAddlNumbers func() bool
+	AllProps         bool // include every optional property
+	NoProps          bool // omit every optional property
+	MaxArr           int
+	PreferBoundary   bool
 }
 
 const asciiAlphabet = "abcXYZ019 _-"
@@ -374,6 +376,14 @@ func validObject(t *rapid.T, n *model.Node, o *Opts, depth int) (jv.V, bool) {
 		for i := 0; i < k; i++ {
 			v, ok := valid(t, n.Additional.Schema, o, depth+1)
 			if ok {
+				if v.K == jv.Num && o.SmallAddlNumbers != nil {
+					if r := jv.Rat(v.N); r.IsInt() && r.Num().BitLen() > 53 && o.SmallAddlNumbers() {
+						if o.Excluded != nil {
+							o.Excluded["addprops.int_beyond_2pow53"]++
+						}
+						v = jv.IntV(int64(i) + 7)
+					}
+				}
 				out.O = append(out.O, jv.KV{K: ExtraKey(i), V: v})
 			}
 		}
